@@ -79,6 +79,28 @@ def h_comp2(c):
 
 def h_d3(x, y=2, z=7):
     return x * 100 + (y * 10 + z)
+
+
+def h_cd(a):
+    return (lambda x, s=2: x * s)(a)
+
+
+def h_th(a):
+    return (lambda: 3)() + a
+
+
+def _h_re(kind):
+    if kind == 1:
+        def h_re(a):
+            return a * 2
+    else:
+        def h_re(a):
+            return a + 100
+    return h_re
+
+
+h_re1 = _h_re(1)   # two function objects with the same __name__, __qualname__ and file
+h_re2 = _h_re(2)
 '''
 
 PLANS = {"quick": [("helper3", "helper", 3, 9000)], "thorough": [("helper3", "helper", 3, None),
